@@ -2,6 +2,7 @@ package vc
 
 import (
 	"fmt"
+	"go/constant"
 	"go/types"
 	"strings"
 
@@ -44,8 +45,48 @@ func (f *frame) external(n *node, callee *ssa.Function, full string, args []Val,
 	rt := resultType(callee.Signature)
 	switch full {
 	case "fmt.Sprintf", "fmt.Sprint", "fmt.Sprintln", "strconv.Itoa", "strconv.FormatInt", "strconv.FormatUint", "strconv.Quote":
+		if t, ok := f.decimalText(n, full, args, in); ok {
+			x.note("trusted model: strconv.FormatInt/FormatUint/Itoa (base 10) and fmt.Sprintf(\"%%d\", v) return the decimal text of the integer (same function as big.Int.String)")
+			return t, true
+		}
 		x.note("library call %s: result is an unknown string", full)
 		return x.havoc(rt, "str"), true
+	case "strings.Index", "strings.LastIndex", "strings.IndexAny", "strings.LastIndexAny", "strings.IndexByte", "strings.LastIndexByte", "strings.IndexRune":
+		// the result is -1 or a position inside the text at which the whole needle fits
+		if len(args) == 2 && len(args[0].C) == 3 {
+			x.note("trusted model: strings.Index and its variants return -1 or an index inside the text (with room for the substring searched for)")
+			r := g.Const("stridx", SortBV64)
+			room := args[0].C[2]
+			if (full == "strings.Index" || full == "strings.LastIndex") && len(args[1].C) == 3 {
+				// 0 <= r <= len(s)-len(sub), needs len(sub) <= len(s)
+				g.Assume(or(eq(r, bvLit(^uint64(0), 64)),
+					and("(bvule "+args[1].C[2]+" "+room+")", "(bvsge "+r+" "+bvLit(0, 64)+")", "(bvsle "+r+" (bvsub "+room+" "+args[1].C[2]+"))")))
+			} else {
+				g.Assume(or(eq(r, bvLit(^uint64(0), 64)), and("(bvsge "+r+" "+bvLit(0, 64)+")", "(bvslt "+r+" "+room+")")))
+			}
+			return Val{T: rt, C: []string{r}}, true
+		}
+	case "strconv.ParseInt", "strconv.ParseUint":
+		// a successful parse with a constant bit size yields a value of that size
+		if len(args) == 3 && len(args[2].C) == 1 {
+			if bits, w, ok := parseBV(args[2].C[0]); ok && w == 64 && bits >= 1 && bits <= 64 {
+				res := x.havocResult(callee.Signature.Results(), "parseint")
+				if len(res.Sub) == 2 && len(res.Sub[0].C) == 1 && len(res.Sub[1].C) >= 1 {
+					x.note("trusted model: strconv.ParseInt/ParseUint with a constant bit size return a value of that size when they return no error")
+					v := res.Sub[0].C[0]
+					okErr := eq(res.Sub[1].C[0], bvLit(0, 32))
+					if bits < 64 {
+						if full == "strconv.ParseInt" {
+							lo := ^uint64(0) << (bits - 1)
+							g.Assume(implies(okErr, and("(bvsge "+v+" "+bvLit(lo, 64)+")", "(bvslt "+v+" "+bvLit(uint64(1)<<(bits-1), 64)+")")))
+						} else {
+							g.Assume(implies(okErr, "(bvult "+v+" "+bvLit(uint64(1)<<bits, 64)+")"))
+						}
+					}
+					return res, true
+				}
+			}
+		}
 	case "fmt.Errorf", "errors.New", "golang.org/x/xerrors.Errorf", "golang.org/x/xerrors.New":
 		x.note("library call %s: result is a non-nil error", full)
 		return x.nonNilError(rt, "err"), true
@@ -169,7 +210,28 @@ func (f *frame) external(n *node, callee *ssa.Function, full string, args []Val,
 		name := strings.TrimPrefix(full, "(reflect.Value).")
 		x.note("trusted: reflect.Value observers are pure functions of the value and their arguments; reflect setters are not modelled")
 		x.g.Raw("sort:"+opaqueSort("reflect.Value"), "(declare-sort "+opaqueSort("reflect.Value")+" 0)")
+		lenFn := g.Fun("reflect:Len", []string{opaqueSort("reflect.Value"), SortBV64}, SortBV64)
+		capFn := g.Fun("reflect:Cap", []string{opaqueSort("reflect.Value"), SortBV64}, SortBV64)
 		if strings.HasPrefix(name, "Set") {
+			// a setter changes memory the engine does not see: every observer of mutable state
+			// (of any value: values alias) is unknown afterwards, except for what the setter
+			// itself determines (SetLen: the length; Set: length and capacity of the source)
+			before := f.reflectVersion(n)
+			after := f.bumpReflectVersion(n)
+			v := args[0].C[0]
+			switch name {
+			case "SetLen":
+				if len(args) == 2 && len(args[1].C) == 1 {
+					nv := args[1].C[0]
+					x.safety(f, n, "reflect", "SetLen", and("(bvsge "+nv+" "+bvLit(0, 64)+")", "(bvsle "+nv+" ("+capFn+" "+v+" "+before+"))"), in.Pos())
+					g.Assume(implies(n.reach, and(eq("("+lenFn+" "+v+" "+after+")", nv), eq("("+capFn+" "+v+" "+after+")", "("+capFn+" "+v+" "+before+")"))))
+				}
+			case "Set":
+				if len(args) == 2 && len(args[1].C) == 1 {
+					src := args[1].C[0]
+					g.Assume(implies(n.reach, and(eq("("+lenFn+" "+v+" "+after+")", "("+lenFn+" "+src+" "+before+")"), eq("("+capFn+" "+v+" "+after+")", "("+capFn+" "+src+" "+before+")"))))
+				}
+			}
 			return Val{T: rt}, true
 		}
 		// the type of a value and its kind: Kind() is the kind of Type()
@@ -183,18 +245,27 @@ func (f *frame) external(n *node, callee *ssa.Function, full string, args []Val,
 		case "Kind":
 			return Val{T: rt, C: []string{g.Fresh(SortBV64, "("+kindOf+" "+tref+")")}}, true
 		case "Uint":
-			fn := g.Fun("reflect:Uint", []string{opaqueSort("reflect.Value")}, SortBV64)
-			t := g.Fresh(SortBV64, "("+fn+" "+args[0].C[0]+")")
+			fn := g.Fun("reflect:Uint", []string{opaqueSort("reflect.Value"), SortBV64}, SortBV64)
+			t := g.Fresh(SortBV64, "("+fn+" "+args[0].C[0]+" "+f.reflectVersion(n)+")")
 			k := "(" + kindOf + " " + tref + ")"
 			// a value of kind Uint8/Uint16/Uint32 is below 2^8/2^16/2^32
 			g.Assume(and(implies(eq(k, bvLit(8, 64)), "(bvult "+t+" "+bvLit(1<<8, 64)+")"), implies(eq(k, bvLit(9, 64)), "(bvult "+t+" "+bvLit(1<<16, 64)+")"),
 				implies(eq(k, bvLit(10, 64)), "(bvult "+t+" "+bvLit(1<<32, 64)+")")))
 			return Val{T: rt, C: []string{t}}, true
 		}
+		if name == "Index" && len(args) == 2 && len(args[1].C) == 1 && in != nil {
+			// v.Index(i) panics unless 0 <= i < v.Len()
+			i := args[1].C[0]
+			x.safety(f, n, "reflect", "Index", and("(bvsge "+i+" "+bvLit(0, 64)+")", "(bvslt "+i+" ("+lenFn+" "+args[0].C[0]+" "+f.reflectVersion(n)+"))"), in.Pos())
+		}
 		rc := x.comps(rt)
 		if _, isBasic := rt.Underlying().(*types.Basic); isBasic && len(rc) == 1 && !isString(rt) {
 			var terms, sorts []string
 			okArgs := true
+			// what depends on the type alone is stable; everything else is read in the current
+			// state of the (unseen) memory behind the values
+			stable := map[string]bool{"NumField": true, "NumMethod": true, "CanSet": true, "CanAddr": true, "CanInterface": true, "IsValid": true,
+				"OverflowInt": true, "OverflowUint": true, "OverflowFloat": true}
 			for _, a := range args {
 				cs := x.comps(a.T)
 				if len(cs) != 1 || len(a.C) != 1 {
@@ -205,14 +276,56 @@ func (f *frame) external(n *node, callee *ssa.Function, full string, args []Val,
 				sorts = append(sorts, cs[0].sort)
 			}
 			if okArgs {
+				if !stable[name] {
+					terms = append(terms, f.reflectVersion(n))
+					sorts = append(sorts, SortBV64)
+				}
 				fn := g.Fun("reflect:"+name, sorts, rc[0].sort)
-				return Val{T: rt, C: []string{g.Fresh(rc[0].sort, "("+fn+" "+strings.Join(terms, " ")+")")}}, true
+				t := g.Fresh(rc[0].sort, "("+fn+" "+strings.Join(terms, " ")+")")
+				if name == "Len" || name == "Cap" {
+					g.Assume(and("(bvsge "+t+" "+bvLit(0, 64)+")", "(bvslt "+t+" "+bvLit(1<<62, 64)+")"))
+				}
+				return Val{T: rt, C: []string{t}}, true
 			}
 		}
 		if _, isIface := rt.Underlying().(*types.Interface); isIface && name == "Type" {
 			return x.nonNilError(rt, "reflect.Type"), true // the type of a value is never nil
 		}
 		return x.havocResult(rt, "reflect."+name), true
+	}
+	switch full {
+	case "reflect.Copy", "reflect.Append", "reflect.AppendSlice":
+		// contents change; lengths and capacities of existing values do not
+		x.note("trusted: reflect.Copy/Append change contents only (lengths and capacities of the values involved are unchanged)")
+		before := f.reflectVersion(n)
+		after := f.bumpReflectVersion(n)
+		x.g.Raw("sort:"+opaqueSort("reflect.Value"), "(declare-sort "+opaqueSort("reflect.Value")+" 0)")
+		lenFn := g.Fun("reflect:Len", []string{opaqueSort("reflect.Value"), SortBV64}, SortBV64)
+		capFn := g.Fun("reflect:Cap", []string{opaqueSort("reflect.Value"), SortBV64}, SortBV64)
+		if full == "reflect.Copy" {
+			for _, a := range args {
+				if len(a.C) == 1 {
+					g.Assume(implies(n.reach, and(eq("("+lenFn+" "+a.C[0]+" "+after+")", "("+lenFn+" "+a.C[0]+" "+before+")"), eq("("+capFn+" "+a.C[0]+" "+after+")", "("+capFn+" "+a.C[0]+" "+before+")"))))
+				}
+			}
+		}
+		return x.havocResult(rt, "reflect"), true
+	case "reflect.MakeSlice":
+		if len(args) == 3 && len(args[1].C) == 1 && len(args[2].C) == 1 {
+			x.note("trusted: reflect.MakeSlice(t, len, cap) returns a value of that length and capacity; panics unless 0 <= len <= cap")
+			x.g.Raw("sort:"+opaqueSort("reflect.Value"), "(declare-sort "+opaqueSort("reflect.Value")+" 0)")
+			lenFn := g.Fun("reflect:Len", []string{opaqueSort("reflect.Value"), SortBV64}, SortBV64)
+			capFn := g.Fun("reflect:Cap", []string{opaqueSort("reflect.Value"), SortBV64}, SortBV64)
+			if in != nil {
+				x.safety(f, n, "reflect", "MakeSlice", and("(bvsge "+args[1].C[0]+" "+bvLit(0, 64)+")", "(bvsle "+args[1].C[0]+" "+args[2].C[0]+")"), in.Pos())
+			}
+			r := x.havocResult(rt, "reflect.MakeSlice")
+			if len(r.C) == 1 {
+				ver := f.reflectVersion(n)
+				g.Assume(implies(n.reach, and(eq("("+lenFn+" "+r.C[0]+" "+ver+")", args[1].C[0]), eq("("+capFn+" "+r.C[0]+" "+ver+")", args[2].C[0]))))
+			}
+			return r, true
+		}
 	}
 	if full == "reflect.TypeOf" {
 		x.note("trusted: reflect.TypeOf of a non-nil value is a non-nil Type")
@@ -233,4 +346,213 @@ func (x *Exec) allocSite(f *frame, n *node, in *ssa.MakeSlice, ln string) {
 		return
 	}
 	x.allocBound(f, n, in, ln)
+}
+
+// decimalText models the base-10 formatting functions of strconv and fmt.Sprintf("%d", v):
+// strconv.FormatInt/FormatUint/Itoa in base 10 and fmt.Sprintf("%d", v) with one 64-bit
+// integer operand all yield the decimal text of the same mathematical integer (the text
+// function is the one of big.Int.String: uninterpreted, with a leading '-' exactly for
+// negative values). A signed and an unsigned reading of the same bits therefore give the
+// same text only when the value is below 2^63.
+func (f *frame) decimalText(n *node, full string, args []Val, in *ssa.Call) (Val, bool) {
+	x := f.x
+	is64 := func(t types.Type) (signed, ok bool) {
+		b, isB := t.Underlying().(*types.Basic)
+		if !isB {
+			return false, false
+		}
+		switch b.Kind() {
+		case types.Int, types.Int64:
+			return true, true
+		case types.Uint, types.Uint64, types.Uintptr:
+			return false, true
+		}
+		return false, false
+	}
+	text := func(v Val, signed bool) Val {
+		ofI, ofU, _ := x.bigBridges()
+		of := ofU
+		if signed {
+			of = ofI
+		}
+		return x.bigString(x.g.Fresh(SortInt, "("+of+" "+v.C[0]+")"))
+	}
+	base10 := func(v Val) bool { return len(v.C) == 1 && v.C[0] == bvLit(10, 64) }
+	switch full {
+	case "strconv.FormatInt":
+		if len(args) == 2 && base10(args[1]) && len(args[0].C) == 1 {
+			return text(args[0], true), true
+		}
+	case "strconv.FormatUint":
+		if len(args) == 2 && base10(args[1]) && len(args[0].C) == 1 {
+			return text(args[0], false), true
+		}
+	case "strconv.Itoa":
+		if len(args) == 1 && len(args[0].C) == 1 {
+			return text(args[0], true), true
+		}
+	case "fmt.Sprintf":
+		if in == nil || len(in.Call.Args) != 2 {
+			return Val{}, false
+		}
+		k, isK := in.Call.Args[0].(*ssa.Const)
+		if !isK || k.Value == nil || k.Value.Kind() != constant.String {
+			return Val{}, false
+		}
+		if constant.StringVal(k.Value) != "%d" {
+			return f.sprintfUF(n, constant.StringVal(k.Value), in)
+		}
+		// the operand list: a slice of a fresh [1]interface{} whose element 0 was stored once
+		sl, isS := in.Call.Args[1].(*ssa.Slice)
+		if !isS {
+			return Val{}, false
+		}
+		al, isA := sl.X.(*ssa.Alloc)
+		if !isA {
+			return Val{}, false
+		}
+		at, isArr := al.Type().Underlying().(*types.Pointer).Elem().Underlying().(*types.Array)
+		if !isArr || at.Len() != 1 {
+			return Val{}, false
+		}
+		var operand ssa.Value
+		stores := 0
+		for _, r := range *al.Referrers() {
+			ia, isIA := r.(*ssa.IndexAddr)
+			if !isIA {
+				continue
+			}
+			for _, r2 := range *ia.Referrers() {
+				if st, isSt := r2.(*ssa.Store); isSt && st.Addr == ia {
+					stores++
+					if mi, isMI := st.Val.(*ssa.MakeInterface); isMI {
+						operand = mi.X
+					}
+				}
+			}
+		}
+		if stores != 1 || operand == nil {
+			return Val{}, false
+		}
+		signed, ok := is64(operand.Type())
+		if !ok {
+			return Val{}, false
+		}
+		v := f.lookup(n, operand)
+		if len(v.C) != 1 {
+			return Val{}, false
+		}
+		return text(v, signed), true
+	}
+	return Val{}, false
+}
+
+// sprintfOperands finds, in the SSA of the caller, the operands of a variadic call whose
+// operand list is a slice of a fresh array filled once per element (the form the compiler
+// gives `fmt.Sprintf(format, a, b, ...)`).
+func sprintfOperands(in *ssa.Call) ([]ssa.Value, bool) {
+	sl, isS := in.Call.Args[1].(*ssa.Slice)
+	if !isS {
+		return nil, false
+	}
+	al, isA := sl.X.(*ssa.Alloc)
+	if !isA {
+		return nil, false
+	}
+	at, isArr := al.Type().Underlying().(*types.Pointer).Elem().Underlying().(*types.Array)
+	if !isArr {
+		return nil, false
+	}
+	ops := make([]ssa.Value, at.Len())
+	for _, r := range *al.Referrers() {
+		ia, isIA := r.(*ssa.IndexAddr)
+		if !isIA {
+			continue
+		}
+		ik, isC := ia.Index.(*ssa.Const)
+		if !isC || ik.Value == nil {
+			return nil, false
+		}
+		idx, exact := constant.Int64Val(ik.Value)
+		if !exact || idx < 0 || idx >= at.Len() {
+			return nil, false
+		}
+		for _, r2 := range *ia.Referrers() {
+			if st, isSt := r2.(*ssa.Store); isSt && st.Addr == ia {
+				mi, isMI := st.Val.(*ssa.MakeInterface)
+				if !isMI || ops[idx] != nil {
+					return nil, false
+				}
+				ops[idx] = mi.X
+			}
+		}
+	}
+	for _, o := range ops {
+		if o == nil {
+			return nil, false
+		}
+	}
+	return ops, true
+}
+
+// sprintfUF: fmt.Sprintf with a constant format whose operands are all strings, integers or
+// booleans is a function of the format and the operand values (nothing else can influence
+// the text). The function is uninterpreted: equal operands give equal text, nothing more.
+func (f *frame) sprintfUF(n *node, format string, in *ssa.Call) (Val, bool) {
+	x := f.x
+	g := x.g
+	ops, ok := sprintfOperands(in)
+	if !ok || len(ops) == 0 {
+		return Val{}, false
+	}
+	var terms, sorts []string
+	for _, o := range ops {
+		b, isB := o.Type().Underlying().(*types.Basic)
+		if !isB || b.Info()&(types.IsString|types.IsInteger|types.IsBoolean) == 0 {
+			return Val{}, false
+		}
+		v := f.lookup(n, o)
+		cs := x.comps(o.Type())
+		if len(cs) != len(v.C) {
+			return Val{}, false
+		}
+		for i, c := range cs {
+			terms = append(terms, v.C[i])
+			sorts = append(sorts, c.sort)
+		}
+	}
+	name := "fmt:Sprintf:" + hashOf(format, "")[:10]
+	fa := g.Fun(name+".bytes", sorts, arrSort(SortBV64, SortBV8))
+	fl := g.Fun(name+".len", sorts, SortBV64)
+	arr := g.Fresh(arrSort(SortBV64, SortBV8), "("+fa+" "+strings.Join(terms, " ")+")")
+	ln := g.Fresh(SortBV64, "("+fl+" "+strings.Join(terms, " ")+")")
+	g.Assume("(bvult " + ln + " " + bvLit(1<<40, 64) + ")")
+	x.note("trusted model: fmt.Sprintf(%q, ...) over strings, integers and booleans is a function of its operands", format)
+	return Val{T: types.Typ[types.String], C: []string{arr, bvLit(0, 64), ln}}, true
+}
+
+// The memory behind reflect.Values is not modelled; a ghost version stands for its state.
+// Observers of mutable state are functions of the value, their arguments and the version;
+// every reflect setter (and every call that may modify anything) moves the version on. The
+// cell lives at a fixed non-nil reference, so that a function with a `modifies` list that
+// calls a setter fails its frame obligation (it must declare `modifies *`).
+const reflectVersionKey = "reflect:version"
+
+func reflectCell() string { return refLit(1) }
+
+func (f *frame) reflectVersion(n *node) string {
+	x := f.x
+	arr := x.hget(n.heap, reflectVersionKey, SortBV64, "")
+	return x.g.Fresh(SortBV64, "(select "+arr+" "+reflectCell()+")")
+}
+
+func (f *frame) bumpReflectVersion(n *node) string {
+	x := f.x
+	arr := x.hget(n.heap, reflectVersionKey, SortBV64, "")
+	nv := x.g.Const("reflect.version", SortBV64)
+	x.hset(n.heap, reflectVersionKey, SortBV64, "", x.g.Fresh(heapArraySort(SortBV64, ""), "(store "+arr+" "+reflectCell()+" "+nv+")"), reflectCell())
+	for _, ep := range f.activeEpochs(n) {
+		ep.written[reflectVersionKey] = true
+	}
+	return nv
 }
